@@ -694,11 +694,53 @@ def _run(ctx, v, rng, m, thorough, scratch):
             ww = w if rng.random() < 0.9 else rng.choice([max(1, w - 1), w + 1])
             g.append([rng.choice([None, None, "", "x", " ", "0", "é\n,", rand_cell(rng)]) for _ in range(ww)])
         grids.append(g)
+    # How `_sanitize` can be driven on this tree: directly on a tablib Dataset (what XLSXSheetReader.__init__ hands it on /repo) or,
+    # when the private helper takes something else (a reader re-organised without a change of behaviour), through
+    # XLSXSheetReader on a written file — the model is then asked about the grid AS openpyxl REPORTS IT for that file.
+    def probe_direct():
+        ds = tablib.Dataset()
+        ds.headers = ["a"]
+        ds.append(["x"])
+        return table_view(xr._sanitize(ds))
+
+    pr = run_cli_mode(probe_direct)
+    direct = pr[0] == "ok" and pr[1] == (["a"], [["x"]])
+    san_dist["driver"] = "direct: _sanitize on a Dataset" if direct else \
+        "file: XLSXSheetReader on a written XLSX (_sanitize does not take a Dataset on this tree: %r)" % (pr[1:],)
+    file_reads = {}
+    if not direct:
+        import openpyxl
+        grids = [g for g in grids[:10] if g] + grids[10:10 + (1500 if thorough else 250) * ctx.scale]   # (each grid costs a file)
+        sdir = os.path.join(scratch, "sanitize_files")
+        os.makedirs(sdir, exist_ok=True)
+        eff = []
+        for k, g in enumerate(grids):
+            b = openpyxl.Workbook()
+            ws = b.active
+            ws.title = "s"
+            for i, row in enumerate(g):
+                for j, val in enumerate(row):
+                    if val is not None:
+                        c = ws.cell(row=i + 1, column=j + 1)
+                        c.value = val
+                        c.data_type = "s"
+            pth = os.path.join(sdir, f"g{k}.xlsx")
+            b.save(pth)
+            g2 = load_grid(pth).get("s") or []
+            file_reads[k] = run_cli_mode(lambda: table_view(sheets.XLSXSheetReader(pth).sheets["s"].table))
+            os.unlink(pth)
+            eff.append(g2)
+        grids = eff
     outs = m.ask_many([f"(114 6 {enc_grid(g)})" for g in grids]) if m else None
     for i, g in enumerate(grids):
         v.coverage["evaluations"] += 1
 
         def impl_sanitize():
+            if not direct:
+                r0 = file_reads[i]
+                if r0[0] != "ok":
+                    raise RuntimeError(r0[1:])
+                return r0[1]
             ds = tablib.Dataset()
             # XLSXFormat.import_sheet, on the cell values
             for k, row_vals in enumerate(g):
@@ -714,7 +756,13 @@ def _run(ctx, v, rng, m, thorough, scratch):
         r = run_cli_mode(impl_sanitize)
         im = ("ok", r[1]) if r[0] == "ok" else ("err",)
         san_dist["ok" if r[0] == "ok" else "err"] += 1
-        if r[0] == "ok":
+        if r[0] == "ok" and not direct:
+            if len(r[1][1]) < len(g) - 1:
+                san_dist["dropped_row_cases"] += 1
+                nontrivial.add("san" + repr(g))
+            if g and g[0] and g[0][-1] is None:
+                san_dist["trailing_none_headers"] += 1
+        if r[0] == "ok" and direct:
             # theorem sanitize_idempotent on the real function
             def impl_again():
                 ds = tablib.Dataset()
